@@ -283,6 +283,9 @@ func (c CollectionGenerator) GenerateDeltas(
 		// No changes
 		return nil, nil, model.XdsLogDetails{}, false, nil
 	}
+	// Both were collected while ranging over a set: the response must not depend on its iteration order.
+	res = slices.SortBy(res, func(r *discovery.Resource) string { return r.Name })
+	deletes = slices.Sort(deletes)
 
 	return res, deletes, model.XdsLogDetails{}, true, nil
 }
